@@ -239,11 +239,19 @@ def _dataset(draw):
     return {"n": n, "items": items, "opts": draw(_OPTS), "idxs": idxs, "omit_default": draw(st.booleans())}
 
 
+@st.composite
+def _big(draw):
+    base = draw(G.big_int8_case(sizes=(33, 40, 64, 65, 100)))
+    base["opts"] = draw(_OPTS)
+    return base
+
+
 def subs(tier: str):
     q = tier == "quick"
     return [
         Sub("hand-mazes", check, "hypothesis", strategy=lambda: _hand(10), examples=80 if q else 5000),
         Sub("generated-mazes", check, "hypothesis", strategy=lambda: _gen(10), examples=60 if q else 3000),
+        Sub("large-grids-int8", check, "hypothesis", strategy=_big, examples=3 if q else 40),
         Sub("datasets-and-batches", check_dataset, "hypothesis", strategy=_dataset, examples=20 if q else 1500),
         Sub("config-routes", check_config_route, "hypothesis", strategy=_config_route, examples=10 if q else 500),
     ]
